@@ -1,7 +1,7 @@
 SPECIFICATION GenSpec
 CONSTANTS
-  Ids = {"A", "B", "C", "D", "E"}
-  InitUp = {"A", "B", "C"}
+  Ids = {"A", "B", "C", "D"}
+  InitUp = {"A", "B"}
   Small = {"s1", "s2", "s3"}
   Big = {"b1", "b2", "b3", "b4"}
   Fanout = 3
@@ -11,9 +11,9 @@ CONSTANTS
   OkayRequired = 3
   Budgets = {0, 2, 8}
   MaxStop = 2
-  Transport = "udp"
+  Transport = "tls"
   Redial = "on_failure"
-  MaxReset = 0
+  MaxReset = 2
   MaxJoin = 2
   HistLen = 26
   UOrder <- MCOrder
